@@ -6,7 +6,15 @@ use std::{io, io::Write, path::Path};
 use noodles_core::Position;
 use noodles_cram as cram;
 use noodles_fasta as fasta;
-use noodles_sam::alignment::{RecordBuf, io::Write as _, record::{Flags, cigar::{Op, op::Kind}}, record_buf::Sequence};
+use noodles_sam::alignment::{
+    RecordBuf,
+    io::Write as _,
+    record::{
+        Flags,
+        cigar::{Op, op::Kind},
+    },
+    record_buf::Sequence,
+};
 use vcore::Rng;
 
 use crate::genfiles::{AlnRec, AlnSet, VarRec, VarSet, sam_header};
@@ -34,7 +42,13 @@ pub fn small_aln_set(rng: &mut Rng) -> AlnSet {
                 flags: if unm { 4 } else { *rng.pick(&[0u16, 16, 99, 147]) },
                 rid: Some(r),
                 pos: p,
-                ops: if unm { vec![] } else if rng.chance(1, 4) { vec![('M', len / 2 + 1), ('N', len / 2), ('M', 1)] } else { vec![('M', len)] },
+                ops: if unm {
+                    vec![]
+                } else if rng.chance(1, 4) {
+                    vec![('M', len / 2 + 1), ('N', len / 2), ('M', 1)]
+                } else {
+                    vec![('M', len)]
+                },
                 pad: 0,
                 with_seq: false,
             });
@@ -132,12 +146,8 @@ pub fn write_cram(path: &Path, rng: &mut Rng) -> io::Result<usize> {
         p = (p + rng.below(60) as usize).min(reflen - 120);
     }
     for _ in 0..rng.below(2) * rps as u64 {
-        let rec = RecordBuf::builder()
-            .set_name(format!("c{n}").into_bytes())
-            .set_flags(Flags::UNMAPPED)
-            .set_sequence(Sequence::from(b"ACGTACGT".to_vec()))
-            .set_quality_scores(vec![20u8; 8].into())
-            .build();
+        let rec =
+            RecordBuf::builder().set_name(format!("c{n}").into_bytes()).set_flags(Flags::UNMAPPED).set_sequence(Sequence::from(b"ACGTACGT".to_vec())).set_quality_scores(vec![20u8; 8].into()).build();
         w.write_alignment_record(&header, &rec)?;
         n += 1;
     }
